@@ -333,3 +333,40 @@ func buildsNodes(c *Contract) bool {
 	}
 	return strings.HasPrefix(c.Func, "memefish.parse") || strings.HasPrefix(c.Func, "fparam") || c.BuildsNodes
 }
+
+// foldPrec: ghost.prec[a] is the printer precedence of the expression node at a, by the table in the
+// contract file (ghostdef prec ...); 0 (primary expression) for every other node type.
+func (fr *frame) foldPrec(st *State, ht, addr string) {
+	fx := fr.fx
+	if !fx.g.isNodeHeapType(ht) {
+		return
+	}
+	ni := fx.g.nodeInfos()[ht]
+	val := "0"
+	if def := fx.g.cs.GhostDefs["prec"][ht]; def != nil {
+		base := PtrV{Addr: addr, HT: ht, Elem: ni.named}
+		env := &Env{fx: fx, vars: map[string]TV{"self": {base, types.NewPointer(ni.named)}}, cur: st, old: st, pkg: fx.g.astPackage().Types}
+		val = fx.evalInt(def, env)
+	} else if !fx.g.isExprHeapType(ht) {
+		return // only expressions have a printer precedence
+	}
+	st.heap[ghostPrec] = fx.s.define("G!prec", arrOf(SInt), store(fx.ghostLeaf(st, ghostPrec, SInt), addr, val))
+}
+
+func (g *Gen) isExprHeapType(ht string) bool {
+	if g.exprTypes == nil {
+		g.exprTypes = map[string]bool{}
+		sp := g.spkgs["ast"]
+		if sp != nil {
+			if obj := sp.Pkg.Scope().Lookup("Expr"); obj != nil {
+				it := obj.Type().Underlying().(*types.Interface)
+				for name, ni := range g.nodeInfos() {
+					if types.Implements(types.NewPointer(ni.named), it) {
+						g.exprTypes[name] = true
+					}
+				}
+			}
+		}
+	}
+	return g.exprTypes[ht]
+}
